@@ -981,7 +981,8 @@ impl<'a> Parser<'a> {
         if start == end {
             return Err(ParseError::InvalidRegexCapture(regex_capture_location));
         }
-        let match_index = usize::from_str_radix(&self.source[start..end], 10).unwrap();
+        let match_index = usize::from_str_radix(&self.source[start..end], 10)
+            .map_err(|_| ParseError::InvalidRegexCapture(regex_capture_location))?;
         Ok(ast::RegexCapture { match_index }.into())
     }
 
